@@ -25,7 +25,10 @@ W3 == TLit(VNat(3), <<51>>)
 WX == TId(<<120>>)
 W2e == TId(<<50, 101>>)                          \* "2e": an identifier that is the head of a three-piece float
 WS == TLit(VStr(<<97>>), <<34, 97, 34>>)
-AlphabetT == {W1, W3, WX, W2e, WS} \cup {TOp(o) : o \in {"+", "-", "=", "<", "!", "&&", "/", "*", "=="}}
+\* a decimal word just beyond the i64 range: what it denotes is not claimed (C06), but C07 is relational - its meaning must
+\* not depend on the separators around it either (e.g. a sign glued to it must stay a prefix operator)
+WBig == TLit(VFloat(<<17376, 0, 0, 0>>), <<57, 50, 50, 51, 51, 55, 50, 48, 51, 54, 56, 53, 52, 55, 55, 53, 56, 48, 56>>)
+AlphabetT == {W1, W3, WX, W2e, WS, WBig} \cup {TOp(o) : o \in {"+", "-", "=", "<", "!", "&&", "/", "*", "=="}}
 
 \* separator texts
 SP == <<32>>   TAB == <<9>>   NLs == <<10>>   NBSP == <<160>>   EMSP == <<8195>>   IDSP == <<12288>>
